@@ -8,6 +8,7 @@
 -/
 import CnvVerif.Basic
 import CnvVerif.Model.Call
+import CnvVerif.Generated.ExportConsts
 namespace CnvVerif.Export
 open CnvVerif
 
@@ -145,13 +146,13 @@ def vcfCols (cfg : Cfg) (first : String) (r : Seg) : VcfCols :=
   let ex := expectVcf cfg first r
   let loss := decide (nc < ex)
   { seg := r
-    start' := if r.s == 0 then 1 else r.s
+    start' := if r.s == Generated.VCF_POS_REPLACE_FROM then Generated.VCF_POS_REPLACE_TO else r.s
     ncopies := nc
     expect := ex
     loss := loss
-    svlen := if loss then (r.e - r.s) * (-1) else r.e - r.s
-    svtype := if loss then "DEL" else "DUP"
-    format := if loss then ["GT", "GQ"] else ["GT", "GQ", "CN", "CNQ"] }
+    svlen := if loss then (r.e - r.s) * Generated.VCF_SVLEN_LOSS_FACTOR else r.e - r.s
+    svtype := if loss then Generated.VCF_SVTYPE_LOSS else Generated.VCF_SVTYPE_GAIN
+    format := if loss then Generated.VCF_FORMAT_LOSS else Generated.VCF_FORMAT_GAIN }
 
 /-- `str(out_row.probes).isdigit()`: an integer prints as digits only iff it is not negative; a
     table without the column has NaN there after `reindex` -/
@@ -217,7 +218,7 @@ def renameChrom (ids : List (String × Nat)) (c : String) : String :=
 /-- `format_seg` -/
 def formatSeg (ids : List (String × Nat)) (sm : SegSample) : List SegOut :=
   sm.rows.map fun r =>
-    { id := sm.id, chrom := renameChrom ids r.chrom, start := r.s + 1, endp := r.e,
+    { id := sm.id, chrom := renameChrom ids r.chrom, start := r.s + Generated.SEG_START_SHIFT, endp := r.e,
       probes := if sm.hasProbes then some r.probes else none, mean := r.v }
 
 /-- `export_seg` → `write_seg(dframes, sample_ids, chrom_ids)`; `chrom_ids` is `False` or `True`
@@ -271,7 +272,7 @@ def labelWithGene (b : Bin) : String :=
 
 /-- `rangelabel.to_label`: `f"{chromosome}:{start + 1}-{end}"` -/
 def toLabel (b : Bin) : String :=
-  b.chrom ++ ":" ++ toString (b.s + 1) ++ "-" ++ toString b.e
+  b.chrom ++ ":" ++ toString (b.s + Generated.LABEL_START_SHIFT) ++ "-" ++ toString b.e
 
 def reservedCols : List String := ["chromosome", "start", "end", "gene", "label"]
 
